@@ -5,6 +5,7 @@ package main
 
 import (
 	"bytes"
+	"context"
 	"encoding/json"
 	"fmt"
 	"net/http"
@@ -15,6 +16,7 @@ import (
 	"strconv"
 	"strings"
 	"sync"
+	"time"
 
 	vegeta "github.com/tsenart/vegeta/v12/lib"
 	"vharness/kit"
@@ -256,8 +258,29 @@ func drawConcurrently(tr vegeta.Targeter, callers int) []callerLog {
 		}(g)
 	}
 	close(start)
-	wg.Wait()
+	if !waitTimeout(&wg, hangLimit) {
+		return nil // some caller never got an answer; the goroutines are abandoned
+	}
 	return logs
+}
+
+// a round of a few thousand in-memory calls takes milliseconds; a caller that has no answer after
+// this long never gets one (lower bound only: nothing is concluded from a fast round)
+const hangLimit = 60 * time.Second
+
+// set once a targeter call did not return: no further rounds are started
+var hung bool
+
+func waitTimeout(wg *sync.WaitGroup, d time.Duration) bool {
+	done := make(chan struct{})
+	go func() { wg.Wait(); close(done) }()
+	select {
+	case <-done:
+		return true
+	case <-time.After(d):
+		hung = true
+		return false
+	}
 }
 
 func runStream(s *kit.Summary, sc *streamCase) (implLine string) {
@@ -279,6 +302,12 @@ func runStream(s *kit.Summary, sc *streamCase) (implLine string) {
 		tr = vegeta.NewHTTPTargeter(strings.NewReader(sc.Src), sc.DefaultBody, hdr)
 	}
 	logs := drawConcurrently(tr, sc.Callers)
+	if logs == nil {
+		s.Violate(kit.Violation{Kind: "targeter_call_never_returns", What: "concurrent callers drew from one targeter and at least one call did not return (no target, no ErrNoTargets)",
+			Input: sc, Expected: "every call returns", Observed: fmt.Sprintf("still running after %s", hangLimit),
+			Key: map[string]interface{}{"format": sc.Format, "callers": sc.Callers}})
+		return "hang"
+	}
 	var got []string
 	ex := make([]uint64, sc.Callers)
 	late := 0
@@ -464,7 +493,10 @@ func runStatic(s *kit.Summary, sc staticCase) string {
 		}(g)
 	}
 	close(start)
-	wg.Wait()
+	if !waitTimeout(&wg, hangLimit) {
+		s.Violate(kit.Violation{Kind: "targeter_call_never_returns", What: "a call of the static targeter did not return", Input: sc})
+		return "hang"
+	}
 	if panicked != "" {
 		s.Violate(kit.Violation{Kind: "static_targeter_panic", What: "static targeter panicked: " + panicked, Input: sc})
 		return "panic"
@@ -534,7 +566,7 @@ func rounds(c *run.Ctx, s *kit.Summary, r *kit.Rng, nStatic, nStream int, withDr
 		panic(err)
 	}
 	st := &kit.Stream{Name: "c15.static"}
-	for i := 0; i < nStatic; i++ {
+	for i := 0; i < nStatic && !hung; i++ {
 		sc := staticCase{K: 1 + r.Pick(20), Callers: 1 + r.Pick(64), Draws: 1 + r.Pick(60)}
 		if i%8 == 0 {
 			sc.Callers = 1
@@ -556,7 +588,7 @@ func rounds(c *run.Ctx, s *kit.Summary, r *kit.Rng, nStatic, nStream int, withDr
 	}
 	js := &kit.Stream{Name: "c15.json"}
 	hs := &kit.Stream{Name: "c15.http"}
-	for i := 0; i < nStream; i++ {
+	for i := 0; i < nStream && !hung; i++ {
 		format := "json"
 		if i%2 == 1 {
 			format = "http"
@@ -615,7 +647,9 @@ func raceRun(c *run.Ctx, s *kit.Summary) {
 	}
 	out := filepath.Join(c.Work, "race_summary.json")
 	logp := filepath.Join(c.Work, "race_report")
-	child := exec.Command(bin, "-seed", strconv.FormatInt(c.Seed, 10), "-tier", c.Tier, "-work", filepath.Join(c.Work, "racework"),
+	ctx, cancel := context.WithTimeout(context.Background(), 20*time.Minute)
+	defer cancel()
+	child := exec.CommandContext(ctx, bin, "-seed", strconv.FormatInt(c.Seed, 10), "-tier", c.Tier, "-work", filepath.Join(c.Work, "racework"),
 		"-out", out, "-scale", strconv.FormatFloat(c.Scale, 'g', -1, 64))
 	os.MkdirAll(filepath.Join(c.Work, "racework"), 0o755)
 	child.Env = append(os.Environ(), "VH_C15_CHILD=race", "GORACE=halt_on_error=0 exitcode=0 log_path="+logp)
@@ -708,5 +742,7 @@ func runC15(c *run.Ctx, s *kit.Summary) {
 		return
 	}
 	rounds(c, s, r, c.N(150, 5000), c.N(150, 5000), true)
-	raceRun(c, s)
+	if !hung {
+		raceRun(c, s)
+	}
 }
